@@ -5,6 +5,59 @@ import vp
 from checks import loadfam, runtimefam
 
 
+TWO_VARIANT_MAIN = r'''#![allow(warnings)]
+leptos_i18n::load_locales!();
+use i18n::*;
+use leptos_i18n::Locale as _;
+use std::str::FromStr;
+fn main() {
+    let all: Vec<String> = Locale::get_all().iter().map(|l| format!("\"{}\"", l.as_str())).collect();
+    println!("{{\"op\":\"get_all\",\"res\":[{}],\"default\":\"{}\"}}", all.join(","), Locale::default().as_str());
+    for l in Locale::get_all() {
+        let back = Locale::from_str(l.as_str()).map(|x| x.as_str().to_string()).unwrap_or_else(|_| "err".to_string());
+        println!("{{\"op\":\"forms_min\",\"locale\":\"{}\",\"display\":\"{}\",\"from_str\":\"{}\",\"langid_back\":\"{}\"}}",
+                 l.as_str(), l, back, Locale::from_str(&l.as_langid().to_string()).map(|x| x.as_str().to_string()).unwrap_or_else(|_| "err".to_string()));
+    }
+}
+'''
+
+
+def two_variants(run):
+    """a locale whose name carries TWO variant subtags (a valid language identifier, e.g. the Resian dialect of Slovene in the
+    Bila sub-dialect: sl-rozaj-biske) through load_locales!(): the project must build and the names round-trip"""
+    import os
+    import probe
+    names = ["en", "sl-rozaj-biske"]
+    node = {"t": "map", "e": [["k", {"t": "str", "s": ["x"]}]]}
+    project = {"name": "c13twovar", "cfg": {"default": "en", "locales": names}, "files": [[n, node] for n in names], "main": TWO_VARIANT_MAIN}
+    results, log = probe.build_and_run(run, [project], tag="_c13")
+    r = results["c13twovar"]
+    if not r["built"]:
+        text = (r["build_log"] or log or "")
+        # (the listed known finding is THIS failure; any other reason for not compiling is a different violation)
+        why = "sl-rozaj-biske" if "only supports up to one variant tag" in text else "other-build-failure"
+        run.violation("l2;two-variant-locale-name;" + why, "a project whose locale name has two variant subtags does not compile",
+                      {"locales": names, "build_log": text[-2500:]})
+        return
+    trace = []
+    for ev in r["events"]:
+        e = {"ev": "Ident", "case": 1, "set": "two-variants"}
+        e.update(ev)
+        trace.append(e)
+    trace.append({"ev": "End"})
+    wd = os.path.join(run.workdir, "l2twovar")
+    os.makedirs(wd, exist_ok=True)
+    tpath, cpath = os.path.join(wd, "trace.ndjson"), os.path.join(wd, "cases.ndjson")
+    vp.write_ndjson(tpath, trace)
+    vp.write_ndjson(cpath, [{"id": 1, "abs": {"set": "two-variants", "names": [probe.to_syms(n) for n in names], "name_text": names, "probes": [], "probe_text": []}}])
+    summary, rejects, _ = vp.trace_validate("Trace_LocaleId", "Trace_LocaleId.cfg", wd, tpath, cpath)
+    run.traces += 1
+    run.events += summary["events"]
+    for rj in rejects:
+        ev = trace[rj["l"] - 1]
+        run.violation("l2;two-variant-locale-name;%s;%s" % (ev.get("op"), ev.get("locale")), "tags %s" % sorted(rj["tags"]), {"event": ev})
+
+
 def check(run):
     cases, res = loadfam.gen_cases(run, "MC_LocaleId", "MC_LocaleId.cfg")
     if len(cases) < 3:
@@ -19,6 +72,7 @@ def check(run):
     run.samples = [{"set": abss[0]["set"], "names": abss[0]["name_text"], "probes": abss[0]["probe_text"][:8]}]
     runtimefam.replay_rows(run, rows, abss, "Trace_LocaleId", "Trace_LocaleId.cfg", "_ident",
                            key_of=lambda r, ev: "set=%s;op=%s;arg=%s;%s" % (ev.get("set"), ev.get("op"), ev.get("arg", ev.get("locale")), sorted(r["tags"])[0]))
+    two_variants(run)
     run.exhaustive = True
     run.assumptions = ["5 locale sets (12-locale load_locales! enum with regions / scripts / variants / near-duplicates / RTL; 4 declare_locales! enums incl. an RTL default and a single-locale set)",
                        "14 mutation operators applied to every name (case, surrounding blanks incl. U+00A0, prefix / suffix, '_' for '-', doubling, inner blank, empty)",
